@@ -9,10 +9,14 @@ C25 model: the filer's HTTP write path as the Go code implements it (core Lean o
                                       filer's reader (C17 model: viewFromChunks + readAt) resolves for the whole file
 
 A request body is `avail` (the bytes the reader delivers) followed by EOF, or — `fails` — by a read error.
+A read error that the upload loop meets is remembered (`readErr`), reported as "read input: …" after the
+in-flight uploads finished, answered 499 by autoChunk, and the chunks uploaded so far are handed to
+`Filer.DeleteChunks` (third component of `handle`); saveMetaData is not reached (repair f7329273 of the defect
+uploadReaderToChunks/read-error-treated-as-eof: before it the loop just ended, as at EOF).
 Bytes, offsets and sizes are `Nat`.  A chunk's `gen` is the number of the request that uploaded it; it
 stands for the chunk's mtime (`time.Now()` at upload: requests are sequential, so later request ⇒ later
 mtime; chunks of one request never overlap, so their relative order is irrelevant).  Uploads to the volume
-server do not fail in the model (the stand-in never refuses), so `uploadErr` stays nil.
+server do not fail in the model (the stand-in never refuses), so `uploadErr` is only ever set from `readErr`.
 -/
 import SwV.Model.C17
 namespace SwV.Model.C25
@@ -33,30 +37,33 @@ structure Entry where
   chunks   : List MChunk
 deriving Repr, DecidableEq, Inhabited
 
-/-- result of uploadReaderToChunks: fileChunks, chunkOffset, smallContent -/
+/-- result of the upload loop: fileChunks, chunkOffset, smallContent, and whether the loop ended on a read
+    error of the request body (`readErr != nil`) -/
 structure Upload where
   chunks      : List MChunk
   chunkOffset : Nat
   small       : List Nat
+  readErr     : Bool
 deriving Repr, DecidableEq
 
 /-- the `for` loop of uploadReaderToChunks.  `rest` = bytes the reader still delivers, `fails` = a read
     error follows them, `off` = chunkOffset, `acc` = fileChunks.  One iteration reads up to `cs` bytes:
-    * a read error inside this read (fewer than cs bytes were left before the error), or nothing read ⇒ `break`
-      — the error is NOT propagated: `if err != nil || dataSize == 0 { break }`;
+    * a read error inside this read (fewer than cs bytes were left before the error) ⇒ `readErr = err; break`;
+      nothing read ⇒ `break` (`if err != nil || dataSize == 0 { … readErr = err; break }`, ReadFrom turns EOF into nil);
     * first read of a non-append request that is shorter than the inline limit, or any path below /etc ⇒
       the bytes of THIS read become the inline content and the loop ends (`break`), whatever follows in the reader;
     * otherwise the bytes are uploaded as a chunk at `off`; a short read ends the loop. -/
 def uploadLoop (cs limit : Nat) (inlineOK etc : Bool) (gen : Nat) (fails : Bool) :
     Nat → List Nat → Nat → List MChunk → Upload
-  | 0, _, off, acc => ⟨acc, off, []⟩
+  | 0, _, off, acc => ⟨acc, off, [], false⟩
   | fuel + 1, rest, off, acc =>
     let piece := rest.take cs
-    if (fails ∧ rest.length < cs) ∨ piece.length = 0 then ⟨acc, off, []⟩
-    else if off = 0 ∧ inlineOK ∧ (piece.length < limit ∨ etc) then ⟨acc, off + piece.length, piece⟩
+    if fails ∧ rest.length < cs then ⟨acc, off, [], true⟩
+    else if piece.length = 0 then ⟨acc, off, [], false⟩
+    else if off = 0 ∧ inlineOK ∧ (piece.length < limit ∨ etc) then ⟨acc, off + piece.length, piece, false⟩
     else
       let acc' := acc ++ [{ off := off, gen := gen, data := piece }]
-      if piece.length < cs then ⟨acc', off + piece.length, []⟩
+      if piece.length < cs then ⟨acc', off + piece.length, [], false⟩
       else uploadLoop cs limit inlineOK etc gen fails fuel (rest.drop cs) (off + piece.length) acc'
 
 def uploadReaderToChunks (cs limit : Nat) (isAppend etc : Bool) (gen : Nat) (avail : List Nat) (fails : Bool) : Upload :=
@@ -83,15 +90,21 @@ inductive Method where
   | put | postMultipart | postRaw
 deriving Repr, DecidableEq
 
-/-- one write request against the entry stored at its path: (HTTP status, entry stored afterwards) -/
+/-- one write request against the entry stored at its path: (HTTP status, entry stored afterwards, chunks
+    uploaded by this request that were handed to Filer.DeleteChunks) -/
 def handle (existing : Option Entry) (m : Method) (isAppend : Bool) (cs limit : Nat) (etc : Bool) (gen : Nat)
-    (avail : List Nat) (fails : Bool) : Nat × Option Entry :=
+    (avail : List Nat) (fails : Bool) : Nat × Option Entry × List MChunk :=
   match m with
-  | .postRaw => (500, existing)      -- doPostAutoChunk: r.MultipartReader() refuses a body that is not multipart
+  | .postRaw => (500, existing, [])  -- doPostAutoChunk: r.MultipartReader() refuses a body that is not multipart
   | _ =>
-    match saveMetaData existing isAppend (uploadReaderToChunks cs limit isAppend etc gen avail fails) with
-    | .ok e => (201, some e)
-    | .refused => (500, existing)
+    let u := uploadReaderToChunks cs limit isAppend etc gen avail fails
+    -- uploadReaderToChunks: `uploadErr = "read input: …"`, DeleteChunks(fileChunks), return the error;
+    -- doPut/doPostAutoChunk return it before saveMetaData; autoChunk answers "read input:" with 499
+    if u.readErr then (499, existing, u.chunks)
+    else
+      match saveMetaData existing isAppend u with
+      | .ok e => (201, some e, [])
+      | .refused => (500, existing, [])
 
 /-- chunks of `body` of size `cs` each (the last one shorter), as a gRPC client stores them -/
 def splitChunks (cs gen : Nat) : Nat → List Nat → Nat → List MChunk
